@@ -1196,7 +1196,11 @@ func (e *Engine) overlay(r io.Reader, basePath string, asNew bool) error {
 			return err
 		}
 	}
-	return nil
+
+	// The fields the archive brought are only in memory so far. A shard that already has a
+	// saved field set does not scan its files when it is opened again (a restore reopens it
+	// right away): without saving, the restored fields are unknown from then on.
+	return e.fieldset.Save()
 }
 
 // readFileFromBackup copies the next file from the archive into the shard.
